@@ -755,6 +755,23 @@ def validate_values(nodes, constants, strict=False):
         if not low <= number <= high:
             raise ModelError("%s '%s' of %s out of %s" % (what, value, owner, range_name))
 
+    def check_size_text(size, owner):
+        """ the text is pasted into the generated code: names nobody defines stay a warning, the rest has to be an expression """
+        try:
+            plain_int(size)
+            return
+        except ValueError:
+            pass
+        names = set(re.findall(r"[A-Za-z_]\w*", re.sub(r"0[xX][0-9a-fA-F]+", "0", size)))
+        unknown = [name for name in names if constants.get(name) is None or isinstance(constants.get(name), six.string_types)]
+        try:
+            calc.eval(size, dict(constants, **dict.fromkeys(unknown, 1)))
+        except calc.ParseError as e:
+            raise ModelError("size '%s' of %s cannot be evaluated: %s" % (size, owner, e))
+        except (TypeError, ZeroDivisionError, ValueError, OverflowError) as e:
+            if not unknown:
+                raise ModelError("size '%s' of %s cannot be evaluated: %s" % (size, owner, e))
+
     for node in nodes:
         if isinstance(node, Constant):
             if strict:
@@ -773,6 +790,8 @@ def validate_values(nodes, constants, strict=False):
             for member in node.members:
                 if isinstance(member.size, six.string_types) and re.search(r"[\x00-\x1f]|--|\+\+", member.size):
                     raise ModelError("size %r of array '%s' of %s cannot be written in the generated code" % (member.size, member.name, node.name))
+                if isinstance(member.size, six.string_types):
+                    check_size_text(member.size, "array '%s' of %s" % (member.name, node.name))
         elif isinstance(node, Union):
             values = set()
             for member in node.members:
